@@ -282,6 +282,9 @@ EXTRA_TEXTS = [
     "GROUP = g\nEND_GROUP\nGROUP = g\nEND_GROUP\n", "a = ()\nb = {}\nc = (())\nEND\n",
     "Object = o\n Object = p\n  Group = q\n  End_Group\n End_Object\nEnd_Object\nEnd\n",
     "", "END", "/* only a comment */", "a = 1;;\n", "x = \"\"\ny = ''\n",
+    # names that are not in Unicode NFC (a combining mark, a singleton such as OHM SIGN)
+    "Tempe\u0301rature = 21.5 <degC>\nEND\n", "R_\u2126 = 50\nEND\n",
+    "GROUP = a\u030a\n x\u0301 = 1\nEND_GROUP\n", "\u212b = \"\u00c5\"\n",
 ]
 
 
